@@ -265,6 +265,10 @@ func FamilyCrash(tier string) []*Scenario {
 		}
 		out = append(out, &Scenario{Family: "F-crash", Name: "crash-cont-rerun-" + lv, Plans: []PlanSpec{ps}, Crash: true, Time: true, SlowPlugins: true, MaxTicks: 3})
 	}
+	// a block whose continuous check has an unpolled pass AND a later pass in flight when the block ends (minimal plan;
+	// needs two deviations in the first run, see crashItems)
+	out = append(out, &Scenario{Family: "F-crash", Name: "crash-cont-inflight-at-blockend", Crash: true, Time: true, SlowPlugins: true, MaxTicks: 3,
+		Plans: []PlanSpec{{Blocks: []BlockSpec{{Cont: ChkD(2, A()), Seqs: []SeqSpec{Seq(A())}, Conc: 1}}}}})
 	// retries: the attempt log is what recovery interprets
 	add("retry-t-ok", PlanSpec{Blocks: []BlockSpec{{Seqs: []SeqSpec{Seq(AR(1, Trans, OK), A())}}}})
 	add("retry-ok-r1", PlanSpec{Blocks: []BlockSpec{{Conc: 2, Seqs: []SeqSpec{Seq(AR(1, OK), A()), Seq(AR(3, Trans, OK))}}}})
@@ -279,6 +283,8 @@ func crashItems(prop, tier string, scs []*Scenario) []WorkItem {
 			it.Opts.MaxSeconds = 1200
 			it.Opts.FreeSwitch = true
 			it.Args = map[string]int{"first": 1, "rec": 1, "crashes": 2}
+		} else if sc.Name == "crash-cont-inflight-at-blockend" {
+			it.Args = map[string]int{"first": 2, "rec": 1, "crashes": 1}
 		} else if twoCrashQuick(sc.Name) {
 			// the smallest shapes get the second crash in the quick tier too (every durable state of every recovery
 			// run is a second crash point): this is where the thorough tier found five recovery defects
